@@ -357,7 +357,7 @@ func runC19(c *core.Ctx, o Options) {
 		okDrain := false
 		an.AllInstrs(drain, func(in ssa.Instruction) {
 			if sel, ok := in.(*ssa.Select); ok && !sel.Blocking && len(sel.States) == 1 && sel.States[0].Dir == 2 {
-				if f, _ := an.LoadedField(sel.States[0].Chan); f != nil && f.Name() == "incoming" {
+				if f, _ := an.LoadedField(sel.States[0].Chan); f != nil && an.FieldName(f) == "incoming" {
 					okDrain = true
 				}
 			}
